@@ -29,7 +29,24 @@ def make_service(name, uid):
     return service
 
 
-SERVICES = {k: make_service(k, ABS[k]) for k in 'ABC'}
+class ServiceObject(object):
+    """A provider given as a callable OBJECT (a dispatcher holding its own work list, as applications write
+    them).  Such an object may well be empty, i.e. falsy, at the moment a message arrives."""
+
+    def __init__(self, name, uid, items):
+        self.name, self.sop_classes, self.items = name, [uid], items
+        self.__name__ = 'svcobj_' + name
+
+    def __len__(self):
+        return len(self.items)
+
+    def __call__(self, asce, ctx, msg):
+        CALLS.append((self.name, tuple(ctx), type(msg).__name__))
+
+
+# A: plain function; B: callable object that is empty (falsy); C: callable object that is not
+SERVICES = {'A': make_service('A', ABS['A']), 'B': ServiceObject('B', ABS['B'], []),
+            'C': ServiceObject('C', ABS['C'], ['pending item'])}
 
 
 def _scu(asce, ctx, *a):
